@@ -180,10 +180,19 @@ pub fn eval(c: &Case) -> (Vec<Finding>, String) {
         }
     }
     outcome = format!("stored:discoverable={}", rec.handle.is_some());
-    // ---- assertion with the new credential
+    // ---- assertions with the new credential: with the default requirement, and with verification
+    // discouraged on a second client whose user is present but not verified
     let id = new_id.unwrap_or_default();
-    let opts = request_options(Auth { allow: Some(vec![id.clone()]), ..Default::default() });
-    match par::catch(|| block_on(client.authenticate(&origin, opts, DefaultClientData))) {
+    for unverified in [false, true] {
+    let opts = request_options(Auth { allow: Some(vec![id.clone()]), uv: if unverified { webauthn::UserVerificationRequirement::Discouraged } else { Default::default() }, ..Default::default() });
+    let res = if unverified {
+        let uv2 = ScriptedUv::consenting(Log::new()).outcome(UvOutcome::Ok { presence: true, verification: false });
+        let mut c2 = Client::new(Authenticator::new(Aaguid::new_empty(), store.clone(), uv2));
+        par::catch(|| block_on(c2.authenticate(&origin, opts, DefaultClientData)))
+    } else {
+        par::catch(|| block_on(client.authenticate(&origin, opts, DefaultClientData)))
+    };
+    match res {
         Err(p) => bad("panic", format!("authenticate panicked: {p}")),
         Ok(Err(e)) => bad("assertion-fails", format!("assertion with the new credential failed: {e:?}")),
         Ok(Ok(a)) => {
@@ -196,6 +205,7 @@ pub fn eval(c: &Case) -> (Vec<Finding>, String) {
                 }
             }
         }
+    }
     }
     (fs, outcome)
 }
@@ -211,11 +221,11 @@ pub fn run(ctx: &Ctx) -> Result<Run, String> {
     let n = cs.len() as u64;
     let mut run = Run::from_stats(
         "model_checking",
-        "complete product store capability(3) x residentKey{no selection, absent, discouraged, preferred, required} x requireResidentKey(2) x credProps{absent,false,true} through Client::register + Client::authenticate, plus capability(3) x rk(2) through Authenticator::make_credential; each configuration runs a registration and an assertion with the new credential; every configuration is non-trivial (it reaches save_credential or the required-rk refusal)",
+        "complete product store capability(3) x residentKey{no selection, absent, discouraged, preferred, required} x requireResidentKey(2) x credProps{absent,false,true} through Client::register + Client::authenticate, plus capability(3) x rk(2) through Authenticator::make_credential; each configuration runs a registration and two assertions with the new credential (default requirement with a verified user; verification discouraged with a present but unverified user); every configuration is non-trivial (it reaches save_credential or the required-rk refusal)",
         true,
         stats,
     );
-    run.graph(n, n * 2, n * 2);
+    run.graph(n, n * 3, n * 3);
     run.assume("the residentKey table of WebAuthn L3 §5.1.3 typed into the harness is the oracle; nothing is demanded for credProps false/absent");
     Ok(run)
 }
